@@ -227,7 +227,10 @@ class PythonParserGenerator(IndentPrintMixin, NodeWalker):
                     exp: g.Model = opt
                     if isinstance(exp, g.Option):
                         exp = exp.exp
-                    self._gen_anon_block(exp, ctx=self.ctx, decor=f'{var}.option')
+                    # NOTE: the model declares the names of an option before parsing it (Choice._parse);
+                    #   a sequence declares its own, any other option needs the declaration here
+                    defines = None if isinstance(exp, g.Sequence) else opt
+                    self._gen_anon_block(exp, ctx=self.ctx, decor=f'{var}.option', defines=defines)
         finally:
             # self.pop_ctx()
             self.prev_choice_number()
@@ -454,6 +457,7 @@ class PythonParserGenerator(IndentPrintMixin, NodeWalker):
         decor: str = '',
         echeck: bool = False,
         ctx: str | None = None,
+        defines: g.Model | None = None,
     ):
         ctx = ctx or self.ctx
         if echeck and () in exp.lookaheadlist:
@@ -468,6 +472,8 @@ class PythonParserGenerator(IndentPrintMixin, NodeWalker):
         else:
             self.print(f'def {ANON}() -> Any:')
         with self.indent():
+            if defines is not None:
+                self._gen_defines_declaration(defines)
             self.walk(exp)
 
     def _gen_decor(
